@@ -6,7 +6,7 @@ ID = "C26"
 COQ_FILES = ["Common/Bytes.v", "Common/Corr.v", "Model/Escape.v", "Proofs/Escape.v", "Props/C26.v"]
 PROPS = "Props/C26.v"
 THEOREMS = ["C26_unescape_escape", "C26_runtime_unescape_escape", "C26_unescape_total",
-            "C26_escape_is_printable_ascii"]
+            "C26_escape_is_printable_ascii", "C26_escape_injective"]
 AXIOMS_OK = []
 TRUSTED = ["hand-written Gallina model of internal.EscapeBytes, linker.unescape and protobuf-go text string decoding (ASCII subset)",
            "correspondence harness (vh escape) + verif hook linker.VerifUnescape"]
